@@ -1700,7 +1700,10 @@ class Int(ConstantOpcode):
 
     @classmethod
     def validate(cls, obj):
-        _ = int(obj)
+        if not isinstance(obj, int):
+            # int() also accepts floats and numeric strings/bytes, which would silently be
+            # injected as a different value of a different type
+            raise ValueError(f"{cls.__name__} can only be instantiated from integers, not {obj!r}")
         return obj
 
 
